@@ -125,6 +125,11 @@ def record_from_vector(ptn, rng, d, n, tol, kind):
 
 def run(ctx):
     ptn = common.import_repo()
+    target = None
+    if ctx.replay is not None:
+        # the cases are regenerated deterministically from (seed, tier); only the recorded one is validated again
+        rp = ctx.replay['replay']
+        ctx.seed, ctx.tier, target = int(rp.get('seed', ctx.seed)), str(rp.get('tier', ctx.tier)), rp.get('index')
     rng = np.random.default_rng(ctx.seed * 5 + 13)
     ctx.rule = ('model: Canon.tla compress sweeps over all layouts; traces: one per compress call (random sector-consistent '
                 'states and designed Schmidt spectra) and per from_vector call; non-trivial = call that discards at least one '
@@ -139,8 +144,6 @@ def run(ctx):
         traces.append(tr)
         ctx.count(c, nontriv)
 
-    if ctx.replay is not None:
-        raise SystemExit('replay of C13 cases: rerun with the recorded seed (cases are regenerated from seeds)')
     # ---- random states
     for _ in range(ctx.pick(300, 8000)):
         c = gen_case(rng, ctx.quick)
@@ -237,9 +240,15 @@ def run(ctx):
     ctx.notes['firstbond_events'] = sum(1 for tr in traces for r in tr if r['ev'] == 'firstbond')
     for tr in traces[2:len(traces):max(1, len(traces) // 5)]:
         ctx.sample(tr[:4])
+    offset = 0
+    if target is not None:
+        if not (0 <= int(target) < len(traces)):
+            raise RuntimeError('replay: the recorded case index does not exist for the recorded seed / tier')
+        offset = int(target)
+        cases, traces = [cases[offset]], [traces[offset]]
     bad = validate_chunks(ctx, 'TraceCanon', 'tcp', traces, chunk=ctx.pick(100, 1000), relax=canon.relax)
     for idx, why in sorted(bad.items())[:40]:
         c = cases[idx]
         clause = why[0][2] if why and len(why[0]) > 2 else 'rejected'
         ctx.violation(f'compress:{c.get("kind", "random")}:{clause[:70]}', f'{c}: record {why[0][0] if why else "?"}: {clause}',
-                      dict(case=c, trace=traces[idx]))
+                      dict(case=c, seed=ctx.seed, tier=ctx.tier, index=idx + offset, trace=traces[idx]))
